@@ -32,10 +32,24 @@ def Covered (env : Env) (T : Tables) (d : Desc SortType) (names : List Name) : P
   | .cannedDesign =>
     BasicCovered env T .category d.pseudo names ∧ BasicCovered env T .script d.pseudo names
 
+instance (tagOf : Name → String) (ordered : List String) (names : List Name) :
+    Decidable (TagsCovered tagOf ordered names) := by unfold TagsCovered; infer_instance
+
+instance (env : Env) (T : Tables) (t : Basic) (pseudo : Bool) (names : List Name) :
+    Decidable (BasicCovered env T t pseudo names) := by
+  unfold BasicCovered; cases t <;> infer_instance
+
+instance (env : Env) (T : Tables) (d : Desc SortType) (names : List Name) :
+    Decidable (Covered env T d names) := by
+  unfold Covered; split <;> infer_instance
+
 /-- THE PROPERTY (multiset clause), full strength: whatever the look-ups, the names and the descriptors,
 the result is a permutation of the input -/
 def SortPerm (env : Env) (T : Tables) : Prop :=
   ∀ (ds : List (Desc SortType)) (names : List Name), (sortGlyphNames env T ds names).Perm names
+
+/-- `l` holds no name more often than `l'` does (so nothing that is not in `l'`) -/
+def SubMultiset (l l' : List Name) : Prop := ∀ x, l.count x ≤ l'.count x
 
 /-- the container-partner loop as it was BEFORE repo_fixes/C20-container-partners.diff (kept only to
 document finding F21b): the close relative is appended when it is not yet in the output, whether or not
@@ -49,6 +63,45 @@ def partnersLoopBeforeFix (env : Env) (pseudo : Bool) : Nat → List Name → Li
     | none => partnersLoopBeforeFix env pseudo fuel rest order
     | some c =>
       partnersLoopBeforeFix env pseudo fuel (rest.erase c) (if order.contains c then order else order ++ [c])
+
+/-- sort types that read none of the ordered tables / manual groups -/
+def Basic.tableFree : Basic → Bool
+  | .category | .block | .script | .manualGroups => false
+  | _ => true
+
+def SortType.tableFree : SortType → Bool
+  | .basic b => b.tableFree
+  | .cannedDesign => false
+
+/-- a small font for the examples: one row per glyph = (name, unicode, category, script, block, close relative);
+names outside the table have no unicode and get the defaults of the real look-ups -/
+structure Row where
+  name : Name
+  uni : Option Nat
+  cat : String
+  script : String
+  block : String
+  close : Option Name := none
+
+def rowOf (rows : List Row) (n : Name) : Option Row := rows.find? (fun r => r.name == n)
+
+def tableEnv (rows : List Row) : Env where
+  unicodeFor n := (rowOf rows n).bind (·.uni)
+  pseudoUnicodeFor n := (rowOf rows n).bind (·.uni)
+  categoryFor n _ := ((rowOf rows n).map (·.cat)).getD "Cn"
+  scriptFor n _ := ((rowOf rows n).map (·.script)).getD "Unknown"
+  blockFor n _ := ((rowOf rows n).map (·.block)).getD "No_Block"
+  closeRelativeFor n _ := (rowOf rows n).bind (·.close)
+  inFont n := (rowOf rows n).isSome
+  decompBase _ := -1
+  nameForUnicode _ := none
+
+/-- "A", "(" and ")" with their partners, a name without unicode -/
+def demoEnv : Env := tableEnv [
+  ⟨"A", some 65, "Lu", "Latin", "Basic Latin", none⟩,
+  ⟨"parenleft", some 40, "Ps", "Common", "Basic Latin", some "parenright"⟩,
+  ⟨"parenright", some 41, "Pe", "Common", "Basic Latin", none⟩,
+  ⟨"a.alt", none, "Cn", "Unknown", "No_Block", none⟩]
 
 end NameSort
 end DefconModel
